@@ -34,7 +34,12 @@ func main() {
 			{Cfg: netsim.Config{Name: "4x1-byz-nonproposer", Powers: []int64{1, 1, 1, 1}, Byz: []int{3}, ByzMenu: true, TargetHeight: 1, MaxRound: 4, MaxSteps: 400}, Bound: b},
 			{Cfg: netsim.Config{Name: "4x1-byz-proposer", Powers: []int64{1, 1, 1, 1}, ByzProposer: true, ByzMenu: true, TargetHeight: 1, MaxRound: 4, MaxSteps: 400}, Bound: imax(1, b-1)},
 			{Cfg: netsim.Config{Name: "4x1-byz-proposer-AB", Powers: []int64{1, 1, 1, 1}, ByzProposer: true, ByzMenu: true, ByzVariants: []string{"A", "B"}, TargetHeight: 1, MaxRound: 4, MaxSteps: 400}, Bound: b - 1},
+			// the Byzantine validator proposes at height 2 (last commit, median time and parent id are checked from there on)
+			{Cfg: netsim.Config{Name: "4x1-byz-proposer-height2", Powers: []int64{1, 1, 1, 1}, ByzProposer: true, ByzTurn: 2, ByzMenu: true, TargetHeight: 2, MaxRound: 4, MaxSteps: 800}, Bound: imax(1, b-1)},
 		}
+	}
+	for _, turn := range []int{2, 3} {
+		scen = append(scen, netsim.Scenario{Cfg: netsim.Config{Name: fmt.Sprintf("solo-turn%d-arrival-orders", turn), Powers: []int64{1, 1, 1, 1}, SoloTurn: turn, Driver: "orders", TargetHeight: 1, MaxRound: 8, MaxSteps: 1500}, Bound: 0})
 	}
 	scen = append(scen, netsim.Scenario{Cfg: netsim.Config{Name: "4x1-lock-split", Powers: []int64{1, 1, 1, 1}, Byz: []int{3}, ByzMenu: true, Driver: "lock-split", TargetHeight: 1, MaxRound: 5, MaxSteps: 500}, Bound: b - 1})
 	scen = append(scen, netsim.Scenario{Cfg: netsim.Config{Name: "4x1-late-polka", Powers: []int64{1, 1, 1, 1}, Byz: []int{3}, ByzMenu: true, Driver: "late-polka", TargetHeight: 1, MaxRound: 6, MaxSteps: 600}, Bound: b - 1})
